@@ -113,7 +113,7 @@ func TestC14_IDTokens(t *testing.T) {
 		}
 		maxAge := rapid.SampledFrom([]string{"", "", "1", "5", "3600", "86400"}).Draw(rt, "max_age")
 		prompt := rapid.SampledFrom([]string{"", "", "none", "login", "consent", "login consent"}).Draw(rt, "prompt")
-		hintKind := rapid.SampledFrom([]string{"", "", "", "own", "other-subject", "expired-own", "garbage", "other-key"}).Draw(rt, "id_token_hint")
+		hintKind := rapid.SampledFrom([]string{"", "", "", "own", "other-subject", "expired-own", "expired-other-subject", "garbage", "other-key"}).Draw(rt, "id_token_hint")
 		openidGranted := rapid.IntRange(0, 5).Draw(rt, "openidGranted") != 0
 		hint := ""
 		mkHint := func(sub string, exp time.Time, key interface{}, alg string) string {
@@ -130,6 +130,9 @@ func TestC14_IDTokens(t *testing.T) {
 			hint = mkHint("someone-else", h.Now().Add(time.Hour), k.key, k.alg)
 		case "expired-own":
 			hint = mkHint(ss.subject, h.Now().Add(-time.Hour), k.key, k.alg)
+		case "expired-other-subject":
+			// an expired hint is still a hint: it names the end-user the RP expects
+			hint = mkHint("someone-else", h.Now().Add(-time.Hour), k.key, k.alg)
 		case "garbage":
 			hint = "abc.def.ghi"
 		case "other-key":
@@ -159,7 +162,7 @@ func TestC14_IDTokens(t *testing.T) {
 			if prompt == "login" && ss.authRel != "zero" && auth.Before(rat) {
 				blockers = append(blockers, "prompt=login but the user was not re-authenticated")
 			}
-			if hintKind == "other-subject" {
+			if hintKind == "other-subject" || hintKind == "expired-other-subject" {
 				blockers = append(blockers, "id_token_hint names another subject")
 			}
 		}
